@@ -206,6 +206,8 @@ def machine(tier, sink):
       super().__init__()
       self.r = None
       self.done = False
+      from vmm import core
+      core.arm()
 
     @initialize(base=st.one_of(G.search_spec(max_geos=max_geos, min_geos=2, constraint_p=0.3, max_dates=16),
                                G.search_spec(max_geos=max_geos + 1, min_geos=4, constraint_p=0.15, elig_style='mixed', max_dates=12),
@@ -258,6 +260,8 @@ def machine(tier, sink):
       self._do(['search_results'])
 
     def teardown(self):
+      from vmm import core
+      core.disarm()
       if self.r is not None and not self.done:
         self.done = True
         sink(self.r.spec, self.r.outcome())
